@@ -121,6 +121,10 @@ def build(cfg, values=None):
 
 # ---- solve / static -------------------------------------------------------------------------------------------------
 def job_solve(cfg):
+    return kprop.forked(job_solve1, cfg)
+
+
+def job_solve1(cfg):
     """sparse.solve, analysis.static and Analysis.static(NLgeom=False) with a contract stub for spsolve"""
     from ..sym import reset
     from ..shadow import Shadow, GenericPolicy
@@ -208,7 +212,9 @@ def job_solve(cfg):
                 obs.append(('Kc=f[%d]' % r, sum((Kd[r, j] * c[j] for j in range(n)), Sym.lift(0)), f[r]))
             else:
                 obs.append(('zero-on-null-amplitude[%d]' % r, c[r], 0))
-    res = decide_job(cfg['group'], obs, contracts, timeout_ms=60000)
+    # ordering comparisons of the executed code on symbolic entries (a tolerance test on the load vector): one run per outcome,
+    # each under its condition
+    res = decide_job(cfg['group'], obs, contracts + (list(Sym.FORK.constraints) if Sym.FORK is not None else []), timeout_ms=60000)
     res['cfg'] = cfg
     return res
 
@@ -233,8 +239,18 @@ def configs(tier, seed):
     return out
 
 
-def real_solve_replay(cfg):
-    """the real solver route on a float system of the same pattern: residual of K c = f on the active rows, value on the null rows"""
+def real_solve_replay(cfg, model=None):
+    """the real solver route on a float system of the same pattern: residual of K c = f on the active rows, value on the null rows;
+    with a solver model, the load vectors are the model's (a branch taken for small / special loads only)"""
+    def loads(prefix, f):
+        for r in range(len(f)):
+            v = (model or {}).get('%s%d' % (prefix, r))
+            if v is not None:
+                try:
+                    f[r] = float(Fraction(str(v)))
+                except (ValueError, ZeroDivisionError):
+                    pass
+        return f
     import scipy.sparse as sp
     rng = np.random.RandomState(4)
     n, active = cfg['n'], cfg['active']
@@ -248,6 +264,7 @@ def real_solve_replay(cfg):
     K[np.ix_(active, active)] = Kr
     f = np.zeros(n)
     f[active] = rng.rand(u) + 0.5
+    f = loads('f', f)
     try:
         if cfg['target'] == 'sparse.solve':
             from compmech.sparse import solve
@@ -272,6 +289,7 @@ def real_solve_replay(cfg):
                 K[np.ix_(active, active)] = Knew
                 f = np.zeros(n)
                 f[active] = rng.rand(u) + 0.5
+                f = loads('g', f)
                 st['K'], st['f'] = sp.csr_matrix(K), f
                 incs2, cs2 = A_.static(NLgeom=False, silent=True)
                 c = cs2[-1]
@@ -339,6 +357,8 @@ def main():
                     r['cfg']['target'], real), {'cfg': r['cfg'], 'real_function': real, 'decided_by': 'one float run on the real route (no solver verdict for this branch)'})
         if sats:
             real = real_solve_replay(r['cfg'])
+            if not (real.get('error') or real.get('max_relative_residual', 0) > 1e-9 or real.get('max_on_null', 0) > 0) and sats[0].get('branch'):
+                real = real_solve_replay(r['cfg'], sats[0].get('model'))      # a branch of the executed code: the solver's load vector
             if (real.get('error') or real.get('max_relative_residual', 0) > 1e-9 or real.get('max_on_null', 0) > 0
                     or real.get('increments_of_the_second_run', [1.]) != [1.] or real.get('states_reported_by_the_second_run', 1) != 1):
                 run.violation('%s/%s' % (r['group'], sats[0]['name'].split('[')[0]), '%s: %s fails for n=%d active=%s; real function: %s' % (
